@@ -73,6 +73,46 @@ Section Generic.
   Definition asum (l : list F) : F := fold_left (aadd A) l (azero A).
 End Generic.
 
+(* ---- complex numbers over any reading, operator by operator as femmcomplex.cpp ---------- *)
+Section Complex.
+  Context {F : Type} (A : Arith F).
+  Definition cplx := (F * F)%type.
+  Definition cre (z : cplx) : F := fst z.
+  Definition cim (z : cplx) : F := snd z.
+  Definition cadd (x y : cplx) : cplx := (aadd A (fst x) (fst y), aadd A (snd x) (snd y)).
+  Definition csub (x y : cplx) : cplx := (asub A (fst x) (fst y), asub A (snd x) (snd y)).
+  (* CComplex::operator*( const CComplex& ) *)
+  Definition cmul (x z : cplx) : cplx :=
+    (asub A (amul A (fst x) (fst z)) (amul A (snd x) (snd z)),
+     aadd A (amul A (fst x) (snd z)) (amul A (snd x) (fst z))).
+  (* the reciprocal computed inside operator/( const CComplex& ) *)
+  Definition cinv (z : cplx) : cplx :=
+    if altb A (aabs A (snd z)) (aabs A (fst z)) then
+      let c := adiv A (snd z) (fst z) in
+      let yre := adiv A (aone A) (amul A (fst z) (aadd A (aone A) (amul A c c))) in
+      (yre, amul A (aneg A c) yre)
+    else
+      let c := adiv A (fst z) (snd z) in
+      let yim := adiv A (aneg A (aone A)) (amul A (snd z) (aadd A (aone A) (amul A c c))) in
+      (amul A (aneg A c) yim, yim).
+  Definition cdiv (x z : cplx) : cplx := cmul x (cinv z).
+  Definition cneg (x : cplx) : cplx := (aneg A (fst x), aneg A (snd x)).
+  Definition cconj (x : cplx) : cplx := (fst x, aneg A (snd x)).
+  Definition cscale (d : F) (x : cplx) : cplx := (amul A (fst x) d, amul A (snd x) d).
+  Definition cofR (d : F) : cplx := (d, azero A).
+  Definition ceqb (x y : cplx) : bool := aeqb A (fst x) (fst y) && aeqb A (snd x) (snd y).
+  (* abs( const CComplex& ) is not used by the solvers; sqrt is not defined on complex *)
+  Definition CA : Arith cplx := {|
+    azero := (azero A, azero A); aone := (aone A, azero A);
+    aadd := cadd; asub := csub; amul := cmul; adiv := cdiv; aneg := cneg;
+    asqrt := fun z => z; aabs := fun z => z;
+    aofZ := fun z => (aofZ A z, azero A);
+    api := (api A, azero A);
+    aeqb := ceqb;
+    altb := fun x y => altb A (fst x) (fst y);
+    aleb := fun x y => aleb A (fst x) (fst y) |}.
+End Complex.
+
 (* unfold the record projections of [RA] so that ring / field / lra see plain R terms *)
 Ltac ra_simpl :=
   cbn [azero aone aadd asub amul adiv aneg asqrt aabs aofZ api aeqb altb aleb RA
